@@ -313,6 +313,81 @@ func clearCheck(seed uint64) string {
 	return ""
 }
 
+// cacheClear is the cache-level clear check of C15: InvalidateAll runs while writers on other keys
+// keep the write buffer busy (it holds the eviction lock, so their events pile up and it falls back
+// to removing the remaining keys one by one). Every key that was present before the call and is
+// touched by nobody else must be gone when it returns, and must have been reported exactly once.
+func cacheClear(seed uint64) (violation string, cleared int64) {
+	r := core.NewRng(seed)
+	stable := 5000 + r.Intn(40000)
+	counts := make([]atomic.Int32, stable)
+	o := &otter.Options[int, int]{
+		MaximumSize: 1 << 22,
+		OnDeletion: func(e otter.DeletionEvent[int, int]) {
+			if e.Key >= stableBase && e.Key < stableBase+stable {
+				counts[e.Key-stableBase].Add(1)
+			}
+		},
+	}
+	if r.Chance(1, 2) {
+		o.Executor = func(fn func()) { fn() }
+	}
+	c, err := otter.New(o)
+	if err != nil {
+		return "cannot build: " + err.Error(), 0
+	}
+	defer c.StopAllGoroutines()
+	for i := 0; i < stable; i++ {
+		c.Set(stableBase+i, i)
+	}
+	c.CleanUp()
+	var stop atomic.Bool
+	var started, wg sync.WaitGroup
+	writers := 2 + r.Intn(7)
+	for w := 0; w < writers; w++ {
+		wg.Add(1)
+		started.Add(1)
+		go func(w int) {
+			defer wg.Done()
+			first := true
+			for i := 0; !stop.Load() && i < 400000; i++ {
+				c.Set(churnBase+w*1000+i%1000, i)
+				if first {
+					first = false
+					started.Done()
+				}
+				progress.Add(1)
+			}
+		}(w)
+	}
+	started.Wait()
+	c.InvalidateAll()
+	stop.Store(true)
+	left := 0
+	firstLeft := -1
+	for i := 0; i < stable; i++ {
+		if _, ok := c.GetEntryQuietly(stableBase + i); ok {
+			left++
+			if firstLeft < 0 {
+				firstLeft = stableBase + i
+			}
+		}
+	}
+	wg.Wait()
+	if left > 0 {
+		return fmt.Sprintf("%d of %d keys that were present before InvalidateAll and are touched by nobody else are still present after it returned (first: %d); %d writers were writing other keys meanwhile", left, stable, firstLeft, writers), int64(stable)
+	}
+	c.CleanUp()
+	time.Sleep(time.Millisecond)
+	c.CleanUp()
+	for i := range counts {
+		if n := counts[i].Load(); n > 1 {
+			return fmt.Sprintf("key %d removed by InvalidateAll was reported %d times", stableBase+i, n), int64(stable)
+		}
+	}
+	return "", int64(stable)
+}
+
 // cacheIter is the cache-level half of C15: All / Keys / Values of a real cache iterate while
 // writers replace and invalidate hot keys and churn grows and shrinks the table. A stable key set
 // (never touched) must be yielded exactly once by every iteration; no key twice; a yielded
@@ -516,6 +591,12 @@ func RunC15(col *core.Collector, tier, variant string, seed uint64, shard, nshar
 		if v == "" && i%10 == 0 {
 			v = clearCheck(cfg.Seed)
 			col.Count("clear_checks", 1)
+		}
+		if v == "" && i%8 == 3 {
+			var n int64
+			v, n = cacheClear(cfg.Seed ^ 0x99)
+			col.Count("cache_level.clears_under_load", 1)
+			col.Count("cache_level.cleared_keys", n)
 		}
 		if v == "" && i%2 == 0 {
 			var its, ys int64
